@@ -14,7 +14,8 @@ BOUNDS = {'quick': 'word-at-a-time (x86-64 BLOCK 8, i686 BLOCK 4), SSE4.2, AVX2,
           'thorough': 'every length 0..=100 (NEON name scanner 0..=36), same per-byte coverage'}
 OUTSIDE = 'longer buffers; big-endian targets; NEON results cannot be replayed natively on this x86-64 host'
 EXPLANATION = 'classes are the three sets written in the property text; alignment independence follows from the engine (the buffer base address is unknown to every computation; an aligned or address-dependent access is rejected)'
-ASSUMPTIONS = ['x86 and NEON intrinsic models in mirse/models.py follow the vendor pseudocode']
+ASSUMPTIONS = ['x86 and NEON intrinsic models in mirse/models.py follow the vendor pseudocode',
+               'the scanner functions are private, so no native run validates a scanner-level prediction directly (traces_validated_against_impl = 0 here); the x86 intrinsic models are validated through the whole-parser native replays of C01/C13 on the runtime-dispatch build']
 REQUIRED_WITNESSES = ['stop:end', 'stop:inside']
 
 SCANNERS = [
